@@ -60,7 +60,11 @@ def spectral_clustering(H, k=2, max_iter=1_000, seed=None):
     # ARPACK draws its starting vector from its own hidden generator unless one is given:
     # derive it from the seed so that the seed determines the result
     v0 = None if seed is None else np.random.default_rng(seed).random(L.shape[0])
-    evals, eigs = eigsh(L, k=k, which="SA", v0=v0)
+    try:
+        # SciPy >= 1.17: restarts inside ARPACK draw from `rng` as well
+        evals, eigs = eigsh(L, k=k, which="SA", v0=v0, rng=seed)
+    except TypeError:
+        evals, eigs = eigsh(L, k=k, which="SA", v0=v0)
 
     # Form metric space representation
     X = np.array(eigs)
